@@ -792,13 +792,40 @@ func SexpToGoStructs(
 		// ugorji msgpack will give us int64 not int,
 		// so match that to make the decodings comparable.
 		//vv("*SexpInt code src.Val='%#v'.. targVa.Elem()='%#v'/Type: %T", src.Val, targVa.Elem().Interface(), targVa.Elem().Interface())
-		switch targVa.Elem().Interface().(type) {
-		case float64:
-			targVa.Elem().SetFloat(float64(src.Val))
-		case int64:
-			targVa.Elem().SetInt(int64(src.Val))
+		switch dst := targVa.Elem(); dst.Kind() {
+		case reflect.Float32, reflect.Float64:
+			dst.SetFloat(float64(src.Val))
+		case reflect.Int, reflect.Int8, reflect.Int16, reflect.Int32, reflect.Int64:
+			// a value that does not fit the field is an error; it used
+			// to be stored cut down to the field's width (300 -> 44).
+			if dst.OverflowInt(src.Val) {
+				return nil, fmt.Errorf("the integer %d does not fit a Go %v", src.Val, dst.Type())
+			}
+			dst.SetInt(src.Val)
+		case reflect.Uint, reflect.Uint8, reflect.Uint16, reflect.Uint32, reflect.Uint64, reflect.Uintptr:
+			if src.Val < 0 || dst.OverflowUint(uint64(src.Val)) {
+				return nil, fmt.Errorf("the integer %d does not fit a Go %v", src.Val, dst.Type())
+			}
+			dst.SetUint(uint64(src.Val))
 		default:
-			targVa.Elem().SetInt(int64(src.Val))
+			dst.SetInt(int64(src.Val))
+		}
+	case *SexpUint64:
+		switch dst := targVa.Elem(); dst.Kind() {
+		case reflect.Uint, reflect.Uint8, reflect.Uint16, reflect.Uint32, reflect.Uint64, reflect.Uintptr:
+			if dst.OverflowUint(src.Val) {
+				return nil, fmt.Errorf("the unsigned integer %d does not fit a Go %v", src.Val, dst.Type())
+			}
+			dst.SetUint(src.Val)
+		case reflect.Int, reflect.Int8, reflect.Int16, reflect.Int32, reflect.Int64:
+			if src.Val > math.MaxInt64 || dst.OverflowInt(int64(src.Val)) {
+				return nil, fmt.Errorf("the unsigned integer %d does not fit a Go %v", src.Val, dst.Type())
+			}
+			dst.SetInt(int64(src.Val))
+		case reflect.Float32, reflect.Float64:
+			dst.SetFloat(float64(src.Val))
+		default:
+			return nil, fmt.Errorf("cannot store an unsigned integer in a Go %v", dst.Type())
 		}
 	case *SexpStr:
 		targVa.Elem().SetString(src.S)
@@ -1148,7 +1175,9 @@ func SexpToGoStructs(
 	case *SexpBool:
 		targVa.Elem().Set(reflect.ValueOf(src.Val))
 	default:
-		fmt.Printf("\n error: unknown type: %T in '%#v'\n", src, src)
+		// a value of a kind no Go field can take is reported; it used
+		// to be noted on stdout only and the field left at its zero value.
+		return nil, fmt.Errorf("cannot store a value of type %T in a Go %v", src, targVa.Elem().Type())
 	}
 	return target, nil
 }
